@@ -65,10 +65,10 @@ mutual
       exact ⟨Item.inRangeB_sound x h.1, Item.allInRangeB_sound xs h.2⟩
 end
 
-/-- executable form of the two clauses of `Conforms` that speak about the encoder's output. -/
+/-- executable form of the clause of `Conforms` that speaks about the encoder's output. -/
 def encOkB (S : Schema) (d tag : Nat) (v : Val) : Bool :=
   match encK S marshalFuel (S.dyn d).kind (topTag S d tag) v none with
-  | .ok (items, _) => Item.allInRangeB items && decide (v.depth ≤ (encList items).length + 8)
+  | .ok (items, _) => Item.allInRangeB items
   | _ => false
 
 /-- `Conforms` from two executable checks. -/
@@ -77,16 +77,11 @@ theorem conforms_of_checks (S : Schema) (d tag : Nat) (v : Val)
   unfold encOkB at h2
   split at h2
   · rename_i items w heq
-    simp only [Bool.and_eq_true, decide_eq_true_eq] at h2
-    refine ⟨h1, ?_, ?_⟩
-    · intro items' ver' he
-      rw [heq] at he
-      simp only [Res.ok.injEq, Prod.mk.injEq] at he
-      rw [← he.1]; exact Item.allInRangeB_sound items h2.1
-    · intro items' ver' he
-      rw [heq] at he
-      simp only [Res.ok.injEq, Prod.mk.injEq] at he
-      rw [← he.1]; exact h2.2
+    refine ⟨h1, ?_⟩
+    intro items' ver' he
+    rw [heq] at he
+    simp only [Res.ok.injEq, Prod.mk.injEq] at he
+    rw [← he.1]; exact Item.allInRangeB_sound items h2
   · contradiction
 
 /-! ## "The encoding carries exactly the elements populated" -/
